@@ -611,6 +611,20 @@ func funcTypeParts(goType string) ([]string, string, bool) {
 
 func (t *translator) erased(goType string) bool { return t.a.types[goType] == "-" }
 
+func (t *translator) hasZero(goType string) bool {
+	if _, ok := t.a.zeros[goType]; ok {
+		return true
+	}
+	if t.a.ptrs[goType] || t.a.ints[goType] || strings.HasPrefix(goType, "[]") {
+		return true
+	}
+	switch goType {
+	case "int", "time.Duration", "bool", "string":
+		return true
+	}
+	return false
+}
+
 func (t *translator) zero(n ast.Node, goType string) string {
 	if z, ok := t.a.zeros[goType]; ok {
 		return z
@@ -1898,6 +1912,14 @@ func (t *translator) block(stmts []ast.Stmt, ev *env, lc *loopCtx, top bool, k f
 						})
 					}
 					val = t.pure(vs.Values[i], e2, typ)
+				} else if !t.hasZero(typ) {
+					// a type without a zero value in the tables (an oracle type, a function type): the variable is declared
+					// without a value; every path must assign it before it is read or reaches a join point - a path that does
+					// not leaves an unbound name in the generated file, which then does not type-check (the tie is unavailable)
+					t.coqType(n, typ)
+					e2 = e2.clone()
+					e2.add(name, typ, 1)
+					continue
 				} else {
 					val = t.zero(n, typ)
 				}
@@ -1937,7 +1959,10 @@ func (t *translator) block(stmts []ast.Stmt, ev *env, lc *loopCtx, top bool, k f
 				unsup(arg, "identifier %s", arg.Name)
 			}
 			if t.mayPanic(c.Fun, ev) {
-				unsup(c.Fun, "function value expression that can panic")
+				// fs[i](x): the function value first (an index out of range panics), then the call
+				return t.exprK(c.Fun, ev, t.typeOfSafe(c.Fun, ev), func(f string) string {
+					return "(let " + arg.Name + " := " + cl.coq + " " + f + " " + arg.Name + " in\n" + cont(ev) + ")"
+				})
 			}
 			return "(let " + arg.Name + " := " + cl.coq + " " + t.pure(c.Fun, ev, "") + " " + arg.Name + " in\n" + cont(ev) + ")"
 		}
@@ -2011,6 +2036,23 @@ func (t *translator) block(stmts []ast.Stmt, ev *env, lc *loopCtx, top bool, k f
 		}
 		unsup(x, "%s", x.Tok)
 	case *ast.IfStmt:
+		if x.Init == nil {
+			// a condition decided by the declarations (see assign: v.(I)): only the branch taken is translated
+			if b, known := t.constBool(x.Cond, ev); known {
+				var taken []ast.Stmt
+				if b {
+					taken = x.Body.List
+				} else {
+					switch e := x.Else.(type) {
+					case *ast.BlockStmt:
+						taken = e.List
+					case *ast.IfStmt:
+						taken = []ast.Stmt{e}
+					}
+				}
+				return t.block(append([]ast.Stmt{&ast.BlockStmt{List: taken}}, rest...), ev, lc, top, k)
+			}
+		}
 		if x.Init != nil {
 			// if d, ok := any(v).(I); ok { ... }  with v of a package type and I an interface of the
 			// package: whether v's type has I's methods is decided here, from the declarations
@@ -2113,6 +2155,42 @@ func (t *translator) returnStmt(x *ast.ReturnStmt, ev *env) string {
 	if t.inner > 0 {
 		unsup(x, "return inside a nested loop")
 	}
+	if len(x.Results) == 1 && len(t.ret) > 1 && len(t.defers) == 0 && len(t.outs) == 0 {
+		// return f(a..): a translated function with the same result list is called last; its outcome is ours
+		if c, isCall := x.Results[0].(*ast.CallExpr); isCall {
+			if name, sg := t.sigOf(c, ev); sg != nil && !sg.pure && sg.nouts == 0 && sg.ids == 0 && len(sg.results) == len(t.ret) {
+				same := true
+				for i := range sg.results {
+					if sg.results[i] != t.ret[i] {
+						same = false
+					}
+				}
+				callArgs := c.Args
+				if len(sg.drop) == len(c.Args) {
+					callArgs = nil
+					for i, a := range c.Args {
+						if !sg.drop[i] {
+							callArgs = append(callArgs, a)
+						}
+					}
+				}
+				if same && len(callArgs) == len(sg.params) {
+					terms := make([]string, len(callArgs))
+					var build func(i int) string
+					build = func(i int) string {
+						if i == len(callArgs) {
+							return "(" + name + " " + strings.Join(terms, " ") + " w)"
+						}
+						return t.exprK(callArgs[i], ev, sg.params[i], func(a string) string {
+							terms[i] = a
+							return build(i + 1)
+						})
+					}
+					return build(0)
+				}
+			}
+		}
+	}
 	if len(x.Results) != len(t.ret) {
 		unsup(x, "return with %d values in a function with %d results", len(x.Results), len(t.ret))
 	}
@@ -2162,6 +2240,25 @@ func (t *translator) returned(terms []string) string {
 
 func (t *translator) assign(x *ast.AssignStmt, ev *env, cont func(*env) string) string {
 	define := x.Tok == token.DEFINE
+	// d, ok := v.(I) with v of a package type and I an interface of the package (a helper taking `any` was inlined):
+	// whether v's type has I's methods is decided from the declarations; ok is that constant, d stays undeclared
+	if define && len(x.Lhs) == 2 && len(x.Rhs) == 1 {
+		if ta, isTA := x.Rhs[0].(*ast.TypeAssertExpr); isTA && ta.Type != nil {
+			okId, isOk := x.Lhs[1].(*ast.Ident)
+			it, isIface := ta.Type.(*ast.Ident)
+			if isOk && isIface && !t.mayPanic(ta.X, ev) {
+				if xt := t.typeOfSafe(ta.X, ev); t.a.records[xt] != nil && t.isInterface(it.Name) {
+					if t.implements(x, xt, it.Name) {
+						unsup(x, "%s implements %s: the guarded call is not translated", xt, it.Name)
+					}
+					e2 := ev.clone()
+					v := e2.add(checkName(okId), "bool", 3)
+					v.def = "false"
+					return cont(e2)
+				}
+			}
+		}
+	}
 	// r.f = e  on a record parameter
 	if x.Tok == token.ASSIGN && len(x.Lhs) == 1 && len(x.Rhs) == 1 {
 		if sel, ok := x.Lhs[0].(*ast.SelectorExpr); ok {
@@ -2332,7 +2429,7 @@ func (t *translator) assign(x *ast.AssignStmt, ev *env, cont func(*env) string) 
 				}
 				continue
 			}
-			if old.depth != ev.depth || old.kind != 1 || len(x.Lhs) < 2 {
+			if old.depth != ev.depth || (old.kind != 1 && old.kind != 0) || len(x.Lhs) < 2 {
 				unsup(id, "variable %s shadowed by :=", id.Name)
 			}
 			reuse[id.Name] = true
@@ -2424,6 +2521,24 @@ func (t *translator) assign(x *ast.AssignStmt, ev *env, cont func(*env) string) 
 				}
 			}
 		}
+		// v, ok := e[k]  where e is a panic-free expression of a map type of the table (zero.ValueMap()[str])
+		if ix, ok := x.Rhs[0].(*ast.IndexExpr); ok {
+			if _, isId := ix.X.(*ast.Ident); !isId && t.pathKey(ix.X, ev) == "" {
+				if mt := t.typeOfSafe(ix.X, ev); mt != "" && t.a.maps[mt] != "" && !t.mayPanic(ix.X, ev) && !t.mayPanic(ix.Index, ev) {
+					vt := mt[strings.Index(mt, "]")+1:]
+					if pv, isPseudo := t.a.mapvals[mt]; isPseudo {
+						vt = pv
+					}
+					e2 := ev
+					if define {
+						e2 = ev.clone()
+						declare(e2, lhs[0], vt)
+						declare(e2, lhs[1], "bool")
+					}
+					return "(let '(" + lhs[0] + ", " + lhs[1] + ") := " + t.a.maps[mt] + " " + t.pure(ix.X, ev, "") + " " + t.pure(ix.Index, ev, "") + " in\n" + cont(e2) + ")"
+				}
+			}
+		}
 		// a, ok := x.(T)
 		if ta, ok := x.Rhs[0].(*ast.TypeAssertExpr); ok && ta.Type != nil {
 			key := t.typeOf(ta.X, ev) + ".(" + typeString(ta.Type) + ")"
@@ -2509,6 +2624,41 @@ func (t *translator) assign(x *ast.AssignStmt, ev *env, cont func(*env) string) 
 				}
 				return "(let '" + pat + " := " + call + " in\n" + cont(e2) + ")"
 			}
+		}
+	}
+	if len(x.Lhs) == len(x.Rhs) && len(x.Lhs) > 1 {
+		// a, b := e1, e2 where no right-hand side mentions a variable of the left: one after the other
+		lv := map[string]bool{}
+		allIds := true
+		for _, l := range x.Lhs {
+			if id, isId := l.(*ast.Ident); isId {
+				lv[id.Name] = true
+			} else {
+				allIds = false
+			}
+		}
+		indep := allIds
+		for _, r := range x.Rhs {
+			for n := range used([]ast.Node{r}) {
+				if lv[n] {
+					indep = false
+				}
+			}
+		}
+		if indep {
+			var seq []ast.Stmt
+			for i := range x.Lhs {
+				if id := x.Lhs[i].(*ast.Ident); id.Name == "_" && x.Tok == token.DEFINE {
+					seq = append(seq, &ast.AssignStmt{Lhs: []ast.Expr{id}, TokPos: x.TokPos, Tok: token.ASSIGN, Rhs: []ast.Expr{x.Rhs[i]}})
+					continue
+				}
+				tok := x.Tok
+				if id := x.Lhs[i].(*ast.Ident); define && reuse[id.Name] {
+					tok = token.ASSIGN // a variable of the same scope that := redeclares is assigned
+				}
+				seq = append(seq, &ast.AssignStmt{Lhs: []ast.Expr{x.Lhs[i]}, TokPos: x.TokPos, Tok: tok, Rhs: []ast.Expr{x.Rhs[i]}})
+			}
+			return t.block(seq, ev, nil, false, func(e *env) string { return cont(e) })
 		}
 	}
 	if len(x.Lhs) != 1 || len(x.Rhs) != 1 {
@@ -2627,6 +2777,45 @@ func (t *translator) callTranslated(x *ast.AssignStmt, c *ast.CallExpr, name str
 
 // does the named type of the package (or its pointer) have all methods of the named interface?
 // (syntactic: methods declared in the package directory; a struct with embedded fields is refused)
+// a boolean expression whose value the translator knows
+func (t *translator) constBool(e ast.Expr, ev *env) (bool, bool) {
+	switch x := e.(type) {
+	case *ast.ParenExpr:
+		return t.constBool(x.X, ev)
+	case *ast.Ident:
+		if v, ok := ev.index[x.Name]; ok && v.kind == 3 && v.typ == "bool" {
+			if v.def == "false" {
+				return false, true
+			}
+			if v.def == "true" {
+				return true, true
+			}
+		}
+	case *ast.UnaryExpr:
+		if x.Op == token.NOT {
+			b, known := t.constBool(x.X, ev)
+			return !b, known
+		}
+	}
+	return false, false
+}
+
+func (t *translator) isInterface(name string) bool {
+	for _, f := range t.pkgFiles() {
+		for _, d := range f.Decls {
+			if gd, ok := d.(*ast.GenDecl); ok {
+				for _, sp := range gd.Specs {
+					if ts, isT := sp.(*ast.TypeSpec); isT && ts.Name.Name == name {
+						_, isI := ts.Type.(*ast.InterfaceType)
+						return isI
+					}
+				}
+			}
+		}
+	}
+	return false
+}
+
 func (t *translator) implements(n ast.Node, typ, iface string) bool {
 	base := strings.TrimPrefix(typ, "*")
 	var want []string
